@@ -122,7 +122,7 @@ def check_conv(ctx, pair, direction, lon, lat, par, klass, lon2=None, lat2=None)
         inp['second'] = [lon2, lat2]
     v, out = call2(C, Angle, f, [lon, lat] + list(par))
     tie(ctx, f, [lon, lat] + list(par), out)
-    ctx.predicate('no_exception_conv', v is not None, inp, out, klass)
+    S.predicate(ctx, PROPERTY, 'no_exception_conv', v is not None, inp, out, klass)
     if v is None:
         return
     inp['polecap'] = min(inp['polecap'], 90.0 - abs(v[1]))
@@ -131,22 +131,22 @@ def check_conv(ctx, pair, direction, lon, lat, par, klass, lon2=None, lat2=None)
         ok = 0.0 <= v[0] < 360.0
     else:
         ok = -180.0 <= v[0] <= 180.0
-    ctx.predicate('longitude_range', ok, inp, {'fn': f, 'out': v}, klass)
-    ctx.predicate('latitude_range', -90.0 <= v[1] <= 90.0, inp, {'fn': f, 'out': v}, klass)
+    S.predicate(ctx, PROPERTY, 'longitude_range', ok, inp, {'fn': f, 'out': v}, klass)
+    S.predicate(ctx, PROPERTY, 'latitude_range', -90.0 <= v[1] <= 90.0, inp, {'fn': f, 'out': v}, klass)
     # the conversion is the rotation of its frame pair (independent matrix)
     dev = S.vsep(S.dirv(v[0], v[1]), w)
     record(ctx, 'rotation_' + f, dev, inp)
-    ctx.predicate('is_rotation', dev <= TOL, inp, {'fn': f, 'out': v, 'dev_deg': dev}, klass)
+    S.predicate(ctx, PROPERTY, 'is_rotation', dev <= TOL, inp, {'fn': f, 'out': v, 'dev_deg': dev}, klass)
     # back
     v2, out2 = call2(C, Angle, g, [v[0], v[1]] + list(par))
     tie(ctx, g, [v[0], v[1]] + list(par), out2)
-    ctx.predicate('no_exception_conv', v2 is not None, inp, {'fn': g, 'args': list(v), 'out': out2}, klass)
+    S.predicate(ctx, PROPERTY, 'no_exception_conv', v2 is not None, inp, {'fn': g, 'args': list(v), 'out': out2}, klass)
     if v2 is not None:
         inp2 = dict(inp)
         inp2['polecap'] = min(inp['polecap'], 90.0 - abs(v2[1]))
         dev = S.vsep(S.dirv(v2[0], v2[1]), u)
         record(ctx, 'inverse_' + pair, dev, inp2)
-        ctx.predicate('inverse', dev <= TOL, inp2, {'fwd': v, 'back': v2, 'dev_deg': dev}, klass)
+        S.predicate(ctx, PROPERTY, 'inverse', dev <= TOL, inp2, {'fwd': v, 'back': v2, 'dev_deg': dev}, klass)
     # the angle to a second direction is unchanged
     if lon2 is not None:
         q, outq = call2(C, Angle, f, [lon2, lat2] + list(par))
@@ -157,7 +157,7 @@ def check_conv(ctx, pair, direction, lon, lat, par, klass, lon2=None, lat2=None)
             inp3['polecap'] = min(inp['polecap'], 90.0 - abs(lat2), 90.0 - abs(q[1]), 90.0 - abs(S.lonlat(w2)[1]))
             dev = abs(S.sep_ref(lon, lat, lon2, lat2) - S.sep_ref(v[0], v[1], q[0], q[1]))
             record(ctx, 'preserves_angle_' + pair, dev, inp3)
-            ctx.predicate('preserves_angle', dev <= TOL, inp3, {'dev_deg': dev}, klass)
+            S.predicate(ctx, PROPERTY, 'preserves_angle', dev <= TOL, inp3, {'dev_deg': dev}, klass)
 
 
 def check_sep(ctx, a1, d1, a2, d2, klass):
@@ -169,13 +169,13 @@ def check_sep(ctx, a1, d1, a2, d2, klass):
     tie(ctx, 'angular_separation', [a1, d1, a2, d2], out)
     w, outw = call2(C, Angle, 'angular_separation', [a2, d2, a1, d1])
     tie(ctx, 'angular_separation', [a2, d2, a1, d1], outw)
-    ctx.predicate('no_exception_sep', v is not None and w is not None, inp, [out, outw], klass)
+    S.predicate(ctx, PROPERTY, 'no_exception_sep', v is not None and w is not None, inp, [out, outw], klass)
     if v is not None and w is not None:
         dev = abs(v[0] - truth)
         record(ctx, 'angular_separation', dev, inp)
-        ctx.predicate('separation_value', dev <= TOL, inp, {'impl': v[0], 'dot_cross': truth, 'dev_deg': dev}, klass)
-        ctx.predicate('separation_symmetric', abs(v[0] - w[0]) <= TOL, inp, {'s12': v[0], 's21': w[0]}, klass)
-        ctx.predicate('separation_range', 0.0 <= v[0] <= 180.0, inp, v[0], klass)
+        S.predicate(ctx, PROPERTY, 'separation_value', dev <= TOL, inp, {'impl': v[0], 'dot_cross': truth, 'dev_deg': dev}, klass)
+        S.predicate(ctx, PROPERTY, 'separation_symmetric', abs(v[0] - w[0]) <= TOL, inp, {'s12': v[0], 's21': w[0]}, klass)
+        S.predicate(ctx, PROPERTY, 'separation_range', 0.0 <= v[0] <= 180.0, inp, v[0], klass)
     # position angle of body 1 relative to body 2
     p, outp = call2(C, Angle, 'relative_position_angle', [a1, d1, a2, d2])
     tie(ctx, 'relative_position_angle', [a1, d1, a2, d2], outp)
@@ -183,21 +183,21 @@ def check_sep(ctx, a1, d1, a2, d2, klass):
     tie(ctx, 'relative_position_angle', [a2, d2, a1, d1], outq)
     m, outm = call2(C, Angle, 'relative_position_angle', [a2, d1, a1, d2])
     tie(ctx, 'relative_position_angle', [a2, d1, a1, d2], outm)
-    ctx.predicate('no_exception_pa', None not in (p, q, m), inp, [outp, outq, outm], klass)
+    S.predicate(ctx, PROPERTY, 'no_exception_pa', None not in (p, q, m), inp, [outp, outq, outm], klass)
     if None in (p, q, m):
         return
     if abs(d1) < 90.0 and abs(d2) < 90.0:
         ref = S.pa_ref(a1, d1, a2, d2)
         dev = S.angdiff(p[0], ref)
         record(ctx, 'relative_position_angle', dev, inp)
-        ctx.predicate('position_angle_value', dev <= TOL, inp, {'impl': p[0], 'cross_dot': ref, 'dev_deg': dev}, klass)
+        S.predicate(ctx, PROPERTY, 'position_angle_value', dev <= TOL, inp, {'impl': p[0], 'cross_dot': ref, 'dev_deg': dev}, klass)
         # antisymmetry, in the two senses that are true: exchanging the right ascensions negates the
         # angle exactly; exchanging the bodies gives an angle of the opposite sign.
-        ctx.predicate('position_angle_mirror', p[0] == -m[0] or (abs(p[0]) == 180.0 and abs(m[0]) == 180.0), inp,
+        S.predicate(ctx, PROPERTY, 'position_angle_mirror', p[0] == -m[0] or (abs(p[0]) == 180.0 and abs(m[0]) == 180.0), inp,
                       {'p': p[0], 'mirror': m[0]}, klass)
-        ctx.predicate('position_angle_opposite_sign', p[0] * q[0] <= 0.0 or (abs(p[0]) == 180.0 or abs(q[0]) == 180.0),
+        S.predicate(ctx, PROPERTY, 'position_angle_opposite_sign', p[0] * q[0] <= 0.0 or (abs(p[0]) == 180.0 or abs(q[0]) == 180.0),
                       inp, {'p12': p[0], 'p21': q[0]}, klass)
-    ctx.predicate('position_angle_range', -180.0 <= p[0] <= 180.0, inp, p[0], klass)
+    S.predicate(ctx, PROPERTY, 'position_angle_range', -180.0 <= p[0] <= 180.0, inp, p[0], klass)
 
 
 def check_circle(ctx, pts, klass):
@@ -209,19 +209,19 @@ def check_circle(ctx, pts, klass):
            'polecap': min(90.0 - abs(p[1]) for p in pts)}
     v, out = call2(C, Angle, 'circle_diameter', args)
     tie(ctx, 'circle_diameter', args, out)
-    ctx.predicate('no_exception_circle', v is not None, inp, out, klass)
+    S.predicate(ctx, PROPERTY, 'no_exception_circle', v is not None, inp, out, klass)
     if v is None:
         return
     slack = TOL + 1e-9 * a
-    ctx.predicate('circle_lower_bound', v[0] >= a - slack, inp, {'d': v[0], 'max_sep': a}, klass)
-    ctx.predicate('circle_upper_bound', v[0] <= 2.0 / math.sqrt(3.0) * a + slack, inp,
+    S.predicate(ctx, PROPERTY, 'circle_lower_bound', v[0] >= a - slack, inp, {'d': v[0], 'max_sep': a}, klass)
+    S.predicate(ctx, PROPERTY, 'circle_upper_bound', v[0] <= 2.0 / math.sqrt(3.0) * a + slack, inp,
                   {'d': v[0], 'max_sep': a, 'bound': 2.0 / math.sqrt(3.0) * a}, klass)
     # permuting the three bodies does not change the circle
     perm = [x for p in (pts[2], pts[0], pts[1]) for x in p]
     w, outw = call2(C, Angle, 'circle_diameter', perm)
     tie(ctx, 'circle_diameter', perm, outw)
     if w is not None:
-        ctx.predicate('circle_symmetric', abs(w[0] - v[0]) <= slack, inp, {'d': v[0], 'd_perm': w[0]}, klass)
+        S.predicate(ctx, PROPERTY, 'circle_symmetric', abs(w[0] - v[0]) <= slack, inp, {'d': v[0], 'd_perm': w[0]}, klass)
 
 
 def check_line(ctx, pts, collinear, klass):
@@ -231,16 +231,29 @@ def check_line(ctx, pts, collinear, klass):
     v, out = call2(C, Angle, 'straight_line', args)
     tie(ctx, 'straight_line', args, out)
     if v is None:
-        ctx.predicate('straight_line_runs', not collinear, inp, out, klass)   # degenerate triples may raise
+        S.predicate(ctx, PROPERTY, 'straight_line_runs', not collinear, inp, out, klass)   # degenerate triples may raise
         return
-    ctx.predicate('straight_line_range', 0.0 <= v[0] <= 180.0 and -90.0 <= v[1] <= 90.0, inp, v, klass)
+    S.predicate(ctx, PROPERTY, 'straight_line_range', 0.0 <= v[0] <= 180.0 and -90.0 <= v[1] <= 90.0, inp, v, klass)
     if collinear:
-        ctx.predicate('straight_line_collinear', abs(v[1]) <= 1e-9 and min(v[0], 180.0 - v[0]) <= 1e-5, inp, v, klass)
+        S.predicate(ctx, PROPERTY, 'straight_line_collinear', abs(v[1]) <= 1e-9 and min(v[0], 180.0 - v[0]) <= 1e-5, inp, v, klass)
+
+
+def check_anchors(ctx):
+    """Documented examples (Meeus 13.a and the galactic one of chapter 13)."""
+    Angle, C = _mods()
+    ctx.sample({'call': 'equatorial2ecliptical(Angle(7,45,18.946,ra=True), Angle(28,1,34.26), Angle(23.4392911))',
+                'expected': '(113.215630, 6.684170)'})
+    v, out = call2(C, Angle, 'equatorial2ecliptical', [116.328942, 28.026183, 23.4392911])
+    S.predicate(ctx, PROPERTY, 'anchor_meeus_13a', v is not None and abs(v[0] - 113.215630) < 1e-5 and abs(v[1] - 6.684170) < 1e-5,
+                  {'check': 'anchor'}, out)
+    v, out = call2(C, Angle, 'equatorial2galactic', [Angle(17, 48, 59.74, ra=True)(), Angle(-14, 43, 8.2)()])
+    S.predicate(ctx, PROPERTY, 'anchor_meeus_13_galactic', v is not None and abs(v[0] - 12.9593) < 1e-4 and abs(v[1] - 6.0463) < 1e-4,
+                  {'check': 'anchor'}, out)
 
 
 # ------------------------------------------------------------------ generators
 NEAR = [0.0, 1e-9, 1e-7, 1e-5, 1e-4, 5e-4, 1e-3, 3e-3, 1e-2, 0.1, 1.0]
-SEAM = [0.0, 359.9999999, 1e-12, 360.0 - 1e-9, 180.0, 90.0, 270.0, 1e-7, 359.99999999999994]
+SEAM = [0.0, 359.9999999, 1e-12, 360.0 - 1e-9, 180.0, 90.0, 270.0, 1e-7, 359.99999999999994, -1e-20, -1e-300]
 
 
 def special_dir(rng, pair, direction, par):
@@ -316,15 +329,7 @@ def generate(ctx, shard=0, nshards=1):
             tie(ctx, 'a_add', [y, z], run_impl(lambda: (Angle(y) + Angle(z))()), 'angle_helpers', raw=True)
             tie(ctx, 'a_sub', [y, z], run_impl(lambda: (Angle(y) - Angle(z))()), 'angle_helpers', raw=True)
             tie(ctx, 'a_mul', [y, z], run_impl(lambda: (Angle(y) * z)()), 'angle_helpers', raw=True)
-        # documented examples (Meeus 13.a, 13.b and the galactic one)
-        ctx.sample({'call': 'equatorial2ecliptical(Angle(7,45,18.946,ra=True), Angle(28,1,34.26), Angle(23.4392911))',
-                    'expected': '(113.215630, 6.684170)'})
-        v, out = call2(C, Angle, 'equatorial2ecliptical', [116.328942, 28.026183, 23.4392911])
-        ctx.predicate('anchor_meeus_13a', v is not None and abs(v[0] - 113.215630) < 1e-5 and abs(v[1] - 6.684170) < 1e-5,
-                      {'check': 'anchor'}, out)
-        v, out = call2(C, Angle, 'equatorial2galactic', [Angle(17, 48, 59.74, ra=True)(), Angle(-14, 43, 8.2)()])
-        ctx.predicate('anchor_meeus_13_galactic', v is not None and abs(v[0] - 12.9593) < 1e-4 and abs(v[1] - 6.0463) < 1e-4,
-                      {'check': 'anchor'}, out)
+        check_anchors(ctx)
         # exact poles and the cardinal grid, every pair, both directions
         for pair in PAIRS:
             for direction in (0, 1):
@@ -381,7 +386,9 @@ def replay(case):
     inp = case.get('input') or {}
     kind = inp.get('check')
     a = inp.get('args', [])
-    if kind == 'conv':
+    if kind == 'anchor':
+        check_anchors(ctx)
+    elif kind == 'conv':
         sec = inp.get('second') or [None, None]
         check_conv(ctx, inp['pair'], inp['dir'], a[0], a[1], a[2:], 'replay', sec[0], sec[1])
     elif kind == 'sep':
@@ -394,14 +401,4 @@ def replay(case):
     return (len(fails) > 0, fails)
 
 
-def known_match(finding, failure):
-    """A listed finding covers a failure when the predicate is one of `predicates` and every key of `where`
-    (a field of the failure's input) lies in the listed closed interval."""
-    if failure.get('predicate') not in finding.get('predicates', []):
-        return False
-    inp = failure.get('input') or {}
-    for key, (lo, hi) in (finding.get('where') or {}).items():
-        v = inp.get(key)
-        if not isinstance(v, (int, float)) or not (lo <= v <= hi):
-            return False
-    return True
+known_match = S.known_match
